@@ -397,8 +397,8 @@ theorem R.push (s : Fw σ) (e : LogEntry) (he : plain e = true) : R ms s (s.push
 /-- sampling: the log grows by skipped entries only; runtimes, machines and the fault flag are
     untouched -/
 def Q (s t : Fw σ) : Prop :=
-  ∃ c : List LogEntry, t.log = c.reverse ++ s.log ∧ (∀ e ∈ c, plain e = true) ∧ t.rt = s.rt ∧ t.machines = s.machines ∧
-    t.fault = s.fault ∧ t.actions = s.actions
+  ∃ c : List LogEntry, t.log = c.reverse ++ s.log ∧ (∀ e ∈ c, ∃ b, e = .distRaw b) ∧ t.rt = s.rt ∧
+    t.machines = s.machines ∧ t.fault = s.fault ∧ t.actions = s.actions
 
 theorem Q.refl (s : Fw σ) : Q s s := ⟨[], rfl, by simp, rfl, rfl, rfl, rfl⟩
 
@@ -422,12 +422,16 @@ theorem good_plain (ms : List Machine) (lim st : Nat → Nat) (c : List LogEntry
 
 theorem Q.toR {s t : Fw σ} (h : Q s t) : R ms s t := by
   obtain ⟨c, e, g, r, m, f, _⟩ := h
+  have g' : ∀ e ∈ c, plain e = true := by
+    intro e he
+    obtain ⟨b, rfl⟩ := g e he
+    rfl
   exact fun ht => ⟨by rw [← f]; exact ht, c, e, fun lim st hi =>
-    ⟨lim, st, good_plain ms lim st c g, hi.congr m (fun j => by rw [r])⟩⟩
+    ⟨lim, st, good_plain ms lim st c g', hi.congr m (fun j => by rw [r])⟩⟩
 
 theorem q_distSample (d : Dist) (s : Fw σ) : Q s (distSample ρ d s).2 := by
   unfold distSample
-  exact ⟨[.distRaw _], rfl, by simp [plain], rfl, rfl, rfl, rfl⟩
+  exact ⟨[.distRaw _], rfl, by simp, rfl, rfl, rfl, rfl⟩
 
 theorem q_sampleLimit (a : Action) (s : Fw σ) : Q s (sampleLimit ρ a s).2 := by
   unfold sampleLimit; split
